@@ -42,9 +42,66 @@ fn gen_ops(rng: &mut Rng, tier: Tier) -> (Vec<Op>, Vec<(u32, u32)>, bool) {
     let gc_rate = *rng.pick(&[0u64, 5, 20, 50, 100]);
     let mut ops = vec![];
     let mut gcs = vec![];
+    // Motif prefix (1 history in 3): the handle list is known at the start of a history, so a
+    // structured shape can be addressed exactly. Chain of length n: v, k0..k(n-1) with
+    // e0 = (k0 -> v), e(i) = (k(i) -> k(i-1)), created in a seeded order, then every handle but the
+    // head key is dropped: each key is reachable only through the value of the next ephemeron,
+    // which needs one fix-point round per link when the creation order is the reverse of the
+    // dependency order. Variants: ephemerons held by the simulator, stored in the head key, or
+    // entries of a weak map.
+    if rng.chance(1, 3) {
+        let n = rng.range(2, 7) as u32;
+        let variant = rng.below(3);
+        for _ in 0..=n {
+            ops.push(Op { code: code::ALLOC, a: 0, b: NONE, c: NONE });
+        }
+        if variant == 2 {
+            ops.push(Op { code: code::MAP_NEW, a: NONE, b: 0, c: 0 });
+        }
+        let mut order: Vec<u32> = (0..n).collect();
+        match rng.below(3) {
+            0 => {}
+            1 => order.reverse(),
+            _ => {
+                for i in (1..order.len()).rev() {
+                    let j = rng.idx(i + 1);
+                    order.swap(i, j);
+                }
+            }
+        }
+        for i in &order {
+            // key k(i) is node i+1 (handle slot i+1), value is node i (slot i)
+            let op = match variant {
+                0 => Op { code: code::EPH, a: i + 1, b: *i, c: NONE },
+                1 => Op { code: code::EPH, a: i + 1, b: *i, c: n },
+                _ => Op { code: code::MAP_INSERT, a: 0, b: i + 1, c: *i },
+            };
+            if rng.chance(1, 4) {
+                gcs.push((ops.len() as u32, 0));
+            }
+            ops.push(op);
+        }
+        for _ in 0..n {
+            ops.push(Op { code: code::DROP, a: 0, b: 0, c: 0 });
+        }
+        ops.push(Op { code: code::COLLECT, a: 0, b: 0, c: 0 });
+        for j in 0..n {
+            ops.push(match variant {
+                0 => Op { code: code::READ_EPH, a: j, b: 0, c: 0 },
+                1 => Op { code: code::NODE_READ_EPH, a: 0, b: j, c: 0 },
+                _ => Op { code: code::COLLECT, a: 0, b: 0, c: 0 },
+            });
+        }
+        if rng.chance(1, 2) {
+            // finally let go of the head: the whole chain must die in one collection
+            ops.push(Op { code: code::DROP, a: 0, b: 0, c: 0 });
+            ops.push(Op { code: code::COLLECT, a: 0, b: 0, c: 0 });
+        }
+    }
+    let motif_len = ops.len();
     let slot = |rng: &mut Rng| rng.below(12) as u32;
     let slot_or_none = |rng: &mut Rng| if rng.chance(1, 2) { NONE } else { rng.below(12) as u32 };
-    for i in 0..n {
+    for i in motif_len..motif_len + n {
         let mut pick = rng.below(total);
         let mut c = 0u8;
         for (k, x) in w.iter().enumerate() {
@@ -154,7 +211,7 @@ pub const PROP: Prop = Prop {
     generate,
     execute,
     shrink,
-    rule: "one run = one seeded history of 6..40 (quick) / 6..120, occasionally 500..5000 (thorough) operations over boa_gc (alloc with edges, new_cyclic, link/unlink, clone/drop/load handle, weak and ephemeron held by the simulator or stored in a node, weak map new/insert/remove/get/drop, upgrade, read, allocation inside a mutable borrow, finalizer modes incl. resurrection in 1 run of 12, explicit collect) with collections injected at seeded allocation points (first or second allocation point inside the operation); swarm: per-run operation weights and injection rate; non-trivial = an injected collection fired or at least one node was freed; distinct = distinct (history length, number of injection points, hash of executed-operation log and heap counts after each collection)",
+    rule: "one run = one seeded history of 6..40 (quick) / 6..120, occasionally 500..5000 (thorough) operations over boa_gc (alloc with edges, new_cyclic, link/unlink, clone/drop/load handle, weak and ephemeron held by the simulator or stored in a node, weak map new/insert/remove/get/drop, upgrade, read, allocation inside a mutable borrow, finalizer modes incl. resurrection in 1 run of 12, explicit collect) one history in three starts with a structured motif (a chain of 2..7 ephemerons or weak-map entries whose keys are reachable only through the next link's value, created in forward, reverse or shuffled order, held by the simulator, by the head key or by a weak map, then cut loose); collections are injected at seeded allocation points (first or second allocation point inside the operation); swarm: per-run operation weights and injection rate; non-trivial = an injected collection fired or at least one node was freed; distinct = distinct (history length, number of injection points, hash of executed-operation log and heap counts after each collection)",
     real: &["boa_gc: allocator, collector, Gc, GcRefCell, WeakGc, Ephemeron, WeakMap, derive(Trace)"],
     stub: &["payload type Node (canary, drop and finalize counters)", "collection trigger decision (hook H1)"],
     assumptions: &[
